@@ -223,6 +223,25 @@ def obsCase (e : Option Err) (refs : List (Option Err)) (trim : List Str := []) 
       pList ["isanyx", pList ([refs.drop (refs.length / 2), (refs.drop (refs.length / 2)).reverse,
         refs.drop (refs.length - 4), (refs.drop (refs.length - 4)).reverse].map (fun l => pBool (isAnyB Full e l)))]]
 
+mutual
+/-- the Error() texts of every node, hidden parts (barrier, secondary) included -/
+def deepTexts : Err → List Str
+  | .leaf id k => [text (.leaf id k)]
+  | .barrier id m h => text (.barrier id m h) :: deepTexts h
+  | .wrap id k c => text (.wrap id k c) :: deepTexts c
+  | .second id c s => text (.second id c s) :: (deepTexts c ++ deepTexts s)
+  | .multi id k cs => text (.multi id k cs) :: deepTextsL cs
+def deepTextsL : List Err → List Str
+  | [] => []
+  | e :: r => deepTexts e ++ deepTextsL r
+end
+
+/-- the transport model's `text` is compositional; the real Error() of joinError / withPrefix
+    goes through the formatting engine, which escapes marker runes found in the texts of their
+    causes (only an unknown barrier shows marker runes in its text: finding D7).  A tree in which
+    some text carries a marker rune is outside the domain of the transport streams. -/
+def textsInDomain (e : Err) : Bool := (deepTexts e).all markerFree
+
 /-- C04 streams: origin -> process Q lacking `unknown` -> knowing process; and origin -> knowing directly -/
 def obsCase4 (e : Err) (unknown : List Str) : String :=
   let Q := procOf unknown
@@ -234,6 +253,7 @@ def obsCase4 (e : Err) (unknown : List Str) : String :=
   pList ["res",
     pList ["tree", pTree e],
     pList ["enc0", pEnc w0],
+    pList ["udom", pOpt (fun x => pBool (textsInDomain x)) u1],
     pList ["utree", pOpt pTree u1],
     pList ["uenc", pOpt (fun x => pEnc (encode Q vfStub x)) u1],
     pList ["u2enc", pOpt (fun x => pEnc (encode Q vfStub x)) u2],
